@@ -484,6 +484,16 @@ class Interp(object):
             return a if truth_const(c.v) else b
         if same(a, b):
             return a
+        if isinstance(c, BoolOp) and isinstance(a, (Const, Fin)) and isinstance(b, (Const, Fin)):
+            # a boolean structure of tables is itself a table when small enough
+            try:
+                c2 = self.try_fold_bool(st, c)
+            except (AnalysisError, KeyError):
+                c2 = c
+            if isinstance(c2, Const):
+                return a if truth_const(c2.v) else b
+            if isinstance(c2, Fin):
+                c = c2
         if isinstance(a, (Const, Fin)) and isinstance(b, (Const, Fin)) and isinstance(c, (Const, Fin)):
             fo = T.Folder(self.space, {})
             # fold on full domains of the *union* of what is known: use state-independent folding
@@ -509,6 +519,17 @@ class Interp(object):
                     d = T.p_neg(d)
                 ind = P.atom(App("ind", (c,)), "int")
                 return T.p_add(b, T.p_mul(P.const(d.const_value(), d.kind), ind))
+            if len(a.terms) > 1 and len(b.terms) >= 1:
+                # accumulator idiom: ITE(c, s + t, s) = s + ITE(c, t, 0) when the arms share summands
+                # (a running sum updated under a condition equals the sum of conditional terms)
+                shared = [m for m in a.terms if m in b.terms and a.terms[m] == b.terms[m]]
+                if shared and len(shared) == len(b.terms) and len(d.terms) < len(a.terms):
+                    zero = P.const(0, d.kind)
+                    return T.p_add(b, P.atom(App("ite", (c, d, zero)), d.kind))
+                if shared and len(shared) == len(a.terms) and len(d.terms) < len(b.terms):
+                    zero = P.const(0, d.kind)
+                    nd = T.p_neg(d)
+                    return T.p_add(a, P.atom(App("ite", (mk_not(c), nd, zero)), nd.kind))
         # canonical polarity: the arm with the smaller key comes first
         if isinstance(a, Term) and isinstance(b, Term) and not (is_boolish(a) and is_boolish(b)):
             if b.sortkey() < a.sortkey():
@@ -604,7 +625,18 @@ class Interp(object):
         d = self.decide(st, cond) if isinstance(cond, Term) else None
         if d is False:
             return
-        self.event("hazard", node, module, st, exc=exc, cond=cond, what=what, definite=(d is True))
+        snap = None
+        if getattr(self, "try_depth", 0) > 0:
+            # inside a try block: keep the state in which the exception is raised, so that a
+            # matching handler can be interpreted from it
+            snap = st.copy()
+            try:
+                if d is None and isinstance(cond, Term):
+                    self.assume(snap, cond)
+                    snap.pc.append(cond)
+            except Dead:
+                snap = None
+        self.event("hazard", node, module, st, exc=exc, cond=cond, what=what, definite=(d is True), snapshot=snap, frame=self.current_func)
 
 
 MISSING = T.Sentinel("<missing>")
